@@ -1,7 +1,7 @@
 (** Vocabulary of the persister theorems (definitions only): abstraction functions into
     [mapspec], well-formedness of the states reachable from the constructors, and the run
     of an operation list on a persister. *)
-From Coq Require Import List NArith ZArith Bool.
+From Coq Require Import List NArith ZArith Bool Permutation.
 From Verif Require Import Base.BStr Persist.Batch Persist.LevelDb Persist.SerialDb Persist.MemDb Persist.MapSpec
   Persist.ShardId Persist.ShardedDb.
 Import ListNotations.
@@ -117,4 +117,94 @@ Fixpoint spec_run2 (m : mapspec) (ops : list op2) : mapspec * list answer :=
   | [] => (m, [])
   | o :: r => let '(m1, a) := spec_step2 m o in
               let '(m2, l) := spec_run2 m1 r in (m2, a :: l)
+  end.
+
+(** ================= C09 additions: early-stopping RangeKeys, Destroy / DestroyClosed ================= *)
+
+(** strictly ascending keys (bytes.Compare) *)
+Definition klt (a b : key * bytes) : Prop := bcmp (fst a) (fst b) = Lt.
+
+(** [run] is what one persister may deliver when [m] calls of the handler are due: [m] different pairs it
+    holds; for a LevelDB directory exactly the first [m] of the ascending iteration *)
+Definition run_ok (b : base) (m : nat) (run : list (key * bytes)) : Prop :=
+  length run = m /\ NoDup (map fst run) /\ incl run (b_iter b) /\ (b_durable b -> run = firstn m (b_iter b)).
+
+(** the visits of a sharded RangeKeys that walks the shards in the order [order], [c] calls having been made
+    before: every shard delivers [expected_run n c' len] pairs, c' the calls made when its turn comes *)
+Inductive runs_ok (s : sharded) (n : nat) : nat -> list nat -> list (key * bytes) -> Prop :=
+| runs_nil : forall c, runs_ok s n c [] []
+| runs_cons : forall c i order run rest,
+    run_ok (get_shard s i) (expected_run n c (length (b_iter (get_shard s i)))) run ->
+    runs_ok s n (c + length run) order rest ->
+    runs_ok s n c (i :: order) (run ++ rest).
+
+(** a visit sequence the model explains: for the sharded persister under SOME order of the shards *)
+Definition stop_explained (n : nat) (p : pers) (vs : list (key * bytes)) : Prop :=
+  match p with
+  | PBase b => run_ok b (expected_run n 0 (length (b_iter b))) vs
+  | PSharded s => exists order, Permutation order (seq 0 (length (sh_shards s))) /\ runs_ok s n 0 order vs
+  end.
+
+(** what the constructor gives on an empty path for a persister of the same kind and configuration *)
+Definition b_fresh (b : base) : base :=
+  match b with
+  | BDb s => BDb (new_db (d_max s) [])
+  | BSer s => BSer (new_sdb (s_max s) [])
+  | BMem _ => BMem new_mem
+  end.
+Definition p_fresh (p : pers) : pers :=
+  match p with
+  | PBase b => PBase (b_fresh b)
+  | PSharded s => PSharded {| sh_n := sh_n s; sh_shards := map b_fresh (sh_shards s) |}
+  end.
+
+(** whatever can be called on an object (dead or alive) *)
+Inductive dop : Type := DOp (o : op) | DClose | DDestroy | DDestroyClosed.
+Definition p_dstep (p : pers) (o : dop) : pers :=
+  match o with
+  | DOp o => fst (p_step p o)
+  | DClose => fst (p_close p)
+  | DDestroy => fst (p_destroy p)
+  | DDestroyClosed => fst (p_destroy_closed p)
+  end.
+(** the object does not hold a LevelDB handle and its path holds nothing (memorydb: no handle, no path) *)
+Definition b_dead (b : base) : Prop :=
+  match b with
+  | BDb s => d_open s = false /\ d_disk s = []
+  | BSer s => s_open s = false /\ s_disk s = []
+  | BMem _ => True
+  end.
+Definition p_dead (p : pers) : Prop :=
+  match p with PBase b => b_dead b | PSharded s => Forall b_dead (sh_shards s) end.
+
+(** histories with Close;Reopen cycles AND destroy cycles (Destroy; constructor / Close; DestroyClosed; constructor) *)
+Inductive op3 : Type := O3 (o : op2) | ODestroyCycle | OCloseDestroyCycle.
+Definition p_destroy_cycle (p : pers) : pers * rclass :=
+  let (p1, r) := p_destroy p in (p_reopen p1, r).
+Definition p_close_destroy_cycle (p : pers) : pers * rclass :=
+  let (p1, r1) := p_close p in
+  let (p2, r2) := p_destroy_closed p1 in
+  (p_reopen p2, match r1 with ROk => r2 | _ => r1 end).
+Definition p_step3 (p : pers) (o : op3) : pers * answer :=
+  match o with
+  | O3 o => p_step2 p o
+  | ODestroyCycle => let (p', r) := p_destroy_cycle p in (p', (r, None))
+  | OCloseDestroyCycle => let (p', r) := p_close_destroy_cycle p in (p', (r, None))
+  end.
+Fixpoint p_run3 (p : pers) (ops : list op3) : pers * list answer :=
+  match ops with
+  | [] => (p, [])
+  | o :: r => let '(p1, a) := p_step3 p o in
+              let '(p2, l) := p_run3 p1 r in (p2, a :: l)
+  end.
+Definition spec_step3 (m : mapspec) (o : op3) : mapspec * answer :=
+  match o with
+  | O3 o => spec_step2 m o
+  | ODestroyCycle | OCloseDestroyCycle => (m_empty, (ROk, None))
+  end.
+Fixpoint spec_run3 (m : mapspec) (ops : list op3) : mapspec * list answer :=
+  match ops with
+  | [] => (m, [])
+  | o :: r => let '(m1, a) := spec_step3 m o in
+              let '(m2, l) := spec_run3 m1 r in (m2, a :: l)
   end.
